@@ -546,6 +546,18 @@ def check_signature_fn(ck, fi):
     ksep, ksrc = kj
     ck.ob("C48.key", fi, k, ksep in (b"&", "&"), "key parts are joined with '&'")
     if isinstance(ksrc, ast.Name):
+        # a key part appended in only one arm of an if: the number of key components then depends on the input
+        one_armed = []
+        for n_ in own_nodes(fi.node):
+            if isinstance(n_, ast.If):
+                adds = lambda blk: [x for st_ in blk for x in ast.walk(st_) if isinstance(x, ast.Call) and isinstance(x.func, ast.Attribute) and q.dotted(x.func.value) == ksrc.id and x.func.attr in ("append", "extend", "insert")]
+                a_, b_ = adds(n_.body), adds(n_.orelse)
+                if bool(a_) != bool(b_):
+                    one_armed.append(n_)
+        if one_armed:
+            ck.ob("C48.key", fi, one_armed[0].test, False, "the key always has exactly two components, consumer secret '&' token secret: without a token the second one is empty but the '&' stays (RFC 5849 §3.4.2); here a component is added only when `%s`" % q.unparse(one_armed[0].test)[:40],
+                  construct="key-part-conditional " + q.normalize_construct(one_armed[0].test, q.local_names(fi.node)))
+            return
         kel = _list_elements(fi, ksrc.id)
     elif isinstance(ksrc, (ast.List, ast.Tuple)):
         kel = list(ksrc.elts)
@@ -790,6 +802,7 @@ MUTANTS = [
     ("1.0a: base string components joined unescaped", _m("_oauth10a_signature", replace_expr(lambda n: isinstance(n, ast.GeneratorExp) and _src(n.elt) == "_oauth_escape(e)", lambda n: ast.Name(id="base_elems", ctx=ast.Load()))), "C48.base-string"),
     ("seeded C48-adv4: key parts quoted with the default safe='/'", _m("_oauth10a_signature", replace_expr(lambda n: isinstance(n, ast.Call) and _src(n.func) == "urllib.parse.quote" and n.keywords, lambda n: ast.Call(func=n.func, args=n.args, keywords=[]), limit=2)), "C48.key-parts-encoded"),
     ("1.0a: token secret not percent-encoded in the key", _m("_oauth10a_signature", replace_expr(lambda n: isinstance(n, ast.Call) and _src(n) == "urllib.parse.quote(token['secret'], safe='~')", lambda n: parse_expr("token['secret']"))), "C48.key-parts-encoded"),
+    ("seeded C48-adv6: token part appended only when a token is given (trailing '&' lost)", _m("_oauth_signature", replace_stmt(lambda st: isinstance(st, ast.Expr) and _src(st).startswith("key_elems.append("), lambda st: [parse_stmt("if token:\n    key_elems.append(escape.utf8(token['secret']))")])), "C48.key"),
     ("1.0a: key parts swapped", _m("_oauth10a_signature", _swap_key_parts), "C48.key"),
     ("_oauth_escape keeps '/' unescaped", _m("_oauth_escape", replace_expr(lambda n: isinstance(n, ast.Constant) and n.value == "~", lambda n: ast.Constant(value="/~"))), "C48.escape-unreserved"),
     ("seeded C48-adv2: _oauth_escape delegates to escape.url_escape (quote_plus)", _m("_oauth_escape", replace_stmt(lambda st: isinstance(st, ast.Return), lambda st: [parse_stmt("return escape.url_escape(val)")])), "C48.escape-unreserved"),
